@@ -383,8 +383,8 @@ func zzStdCaptures() []zzCapture {
 	ms := time.Millisecond
 	// how much the first flow sends in its first and in its later datagrams is
 	// symbolic (decided against the symbolic tag threshold by the solver)
-	p0 := zz.Concretize(zz.Range("payload.first", 1, 3))
-	p1 := zz.Concretize(zz.Range("payload.later", 1, 3))
+	p0 := zz.Concretize(zz.Range("payload.first", 1, zz.Param("payloadmax", 3)))
+	p1 := zz.Concretize(zz.Range("payload.later", 1, zz.Param("payloadmax", 3)))
 	return []zzCapture{
 		{"a.pcap", []zzPkt{{flow: 0, sport: 80, payload: p0, at: 0}}},
 		{"b.pcap", []zzPkt{{flow: 1, sport: 443, payload: 4, at: 10 * ms}}},
@@ -428,7 +428,7 @@ func ZZ_SVC_Scenarios() {
 			}
 		}
 	}
-	zzThreshold = zz.Range("threshold", 1, 6)
+	zzThreshold = zz.Range("threshold", 1, zz.Param("thresholdmax", 6))
 	zz.Assert(mgr.AddTag("tag/big", "#111111", zzBigDef()) == nil, "addtag")
 	zz.Assert(mgr.AddTag("service/web", "#222222", "sport:80") == nil, "addtag")
 	if zz.Param("idtag", 1) == 1 {
